@@ -67,10 +67,29 @@ def fault_runs(ctx, nseeds, nsteps, per_pair, hang_s, exhaustive_cap=0, nkeys=16
             if (seed, f) not in jobs:
                 jobs.append((seed, f))
 
+    # faults inside table compactions below level 0 (retry from a saved compaction state): these need more data than
+    # the short workloads hold, so a few long workloads are run with positions taken only from inside such compactions
+    deep = []
+    want, found = (2 if not exhaustive_cap else 8), 0
+    for i in range(40):
+        if found >= want:
+            break
+        seed = ctx.seed * 1000 + 500 + i
+        ref = run_driver([exe, "-mode", "c08", "-seed", str(seed), "-n", "1500", "-nkeys", str(nkeys),
+                          "-out", ctx.path("deepref-%d.ndjson" % seed)])
+        lst = (ref.get("hot") or {}).get("deepcompaction", [])
+        if len(lst) < 10:
+            continue          # this option row never compacted below level 0
+        found += 1
+        rng.shuffle(lst)
+        for p in lst[:20 if not exhaustive_cap else 80]:
+            deep.append((seed, "%s:%d" % (p, rng.choice([1, 1, 3]))))
+    ctx.extra["fault_positions_inside_deep_compactions"] = len(deep)
+
     def drive(job):
         seed, f = job
         out = ctx.path("fault-%d-%s.ndjson" % (seed, f.replace(":", "_")))
-        args = [exe, "-mode", "c08", "-seed", str(seed), "-n", str(nsteps), "-nkeys", str(nkeys), "-out", out,
+        args = [exe, "-mode", "c08", "-seed", str(seed), "-n", str(1500 if job in deepset else nsteps), "-nkeys", str(nkeys), "-out", out,
                 "-fault", f, "-hang", str(hang_s)]
         s = run_driver(args, timeout=900)
         s["fault"] = f
@@ -79,5 +98,6 @@ def fault_runs(ctx, nseeds, nsteps, per_pair, hang_s, exhaustive_cap=0, nkeys=16
         s["cmd"] = " ".join(args)
         return s
 
-    sums = parallel(drive, jobs, workers=16)
+    deepset = set(deep)
+    sums = parallel(drive, jobs + deep, workers=16)
     return refs, sums
